@@ -6,7 +6,8 @@
                                             conflict_edge.from()), all_regions_intact, ignored_vertex = overlap_vertex,
      resolve_conflict_groups                all three arms; the ConstraintEdgeSplit arm: insert_on_edge (GENERATED split_edge /
                                             split_half_edge), edge_in / edge_out bookkeeping, handle_legal_edge_split, split_vertices and
-                                            their final legalize_vertex,
+                                            their final legalize_vertex, followed by the full legalization (legalize_edge(edge, true)) of
+                                            every edge that starts at a split vertex,
      add_splitting_constraint_edge_fallback phase 1 (insert of every pending split vertex = the locate model + Tri/Insert.v,
                                             remove_constraint_edge of the crossed edge, temporarily_removed), phase 2 (try_add_constraint
                                             between consecutive vertices with the assert_ne!), re-adding the temporarily removed pieces.
@@ -183,13 +184,34 @@ Fixpoint resolve_groups_split (final_vertex : nat) (d : dcel) (nc : nat) (groups
 Definition legalize_vertices (pts : list pnt) (d : dcel) (vs : list nat) : option dcel :=
   fold_left (fun acc v => match acc with Some d' => legalize_vertex pts fuel d' v | None => None end) vs (Some d).
 
+(* let out_edges: Vec<_> = self.vertex(vertex).out_edges().map(|edge| edge.fix()).collect();
+   for edge in out_edges { self.legalize_edge(edge, true); }
+   The handles are collected first (counterclockwise, starting at the vertex' out_edge, as in legalize_vertex of Tri/Insert.v), then every
+   collected handle is passed to the Lawson loop with fully_legalize = true, whatever the earlier flips did to it. *)
+Definition legalize_out_edges (pts : list pnt) (d : dcel) (v : nat) : option dcel :=
+  match v_out_edge d v with
+  | None => Some d
+  | Some a =>
+    match circ_iter (Insert.d_ccw d) (num_directed_edges d) a a with
+    | None => None
+    | Some outs =>
+      fold_left (fun acc e => match acc with
+                              | Some d' => option_map fst (legalize_edge pts fuel d' e true)
+                              | None => None end) outs (Some d)
+    end
+  end.
+
+Definition legalize_out_edges_all (pts : list pnt) (d : dcel) (vs : list nat) : option dcel :=
+  fold_left (fun acc v => match acc with Some d' => legalize_out_edges pts d' v | None => None end) vs (Some d).
+
 Definition resolve_conflict_groups_split (d : dcel) (final_vertex : nat) (groups : list sregion) : option outcome :=
   match resolve_groups_split final_vertex d 0 groups [] None [] with
   | None => None
   | Some (d, nc, ces, split_vertices) =>
       (* for edge in &constraint_edges { self.make_constraint_edge(edge.as_undirected()); } *)
       let '(d, nc) := fold_left (fun acc e => make_constraint_edge (fst acc) (snd acc) (as_undirected e)) ces (d, nc) in
-      (* for vertex in split_vertices { self.legalize_vertex(vertex); } *)
+      (* for vertex in &split_vertices { self.legalize_vertex( *vertex ); }
+         for vertex in split_vertices { out_edges collected; for edge in out_edges { self.legalize_edge(edge, true); } } *)
       match split_vertices with
       | [] => Some (d, Z.of_nat nc, ces)
       | _ :: _ =>
@@ -198,7 +220,11 @@ Definition resolve_conflict_groups_split (d : dcel) (final_vertex : nat) (groups
         | Some pts =>
           match legalize_vertices pts d split_vertices with
           | None => None
-          | Some d => Some (d, Z.of_nat nc, ces)
+          | Some d =>
+            match legalize_out_edges_all pts d split_vertices with
+            | None => None
+            | Some d => Some (d, Z.of_nat nc, ces)
+            end
           end
         end
       end
